@@ -325,6 +325,7 @@ def load_config_file(orchestrator: "Orchestrator", config_file: str, verbose: bo
 
     # Load config into orchestrator
     orchestrator.config = orchestrator.config_loader.load(config_path)
+    orchestrator.ignore_parser.use_config_ignores(orchestrator.config)
 
     logger.debug(f"Loaded config from: {config_file}")
 
